@@ -263,6 +263,7 @@ def main(chk):
                        "seeded random bodies of length<=6 (10 thorough), nesting<=3. non-trivial: a defer and an exit/nested call/raising "
                        "defer both occur; distinct by program text. Compared: stdout trace, outcome kind, error kind+message; "
                        "three-way: implementation vs PanCore (vm_compute) vs an independent trace simulator.")
+    chk.cov["rule"] = str(chk.cov.get("rule", "")) + " Hand-derived programs include the guard of a guarded defer (evaluated when reached: marker, re-bound variable, raising guard)."
     for i in (0, len(progs) // 2, len(progs) - 1):
         chk.sample({"program": progs[i], "impl": {k: res[i]["impl"].get(k) for k in ("kind", "repr", "errk", "errmsg", "out")},
                     "model_verdict": res[i]["verdict"]})
@@ -295,6 +296,13 @@ def main(chk):
         r = bad_other[0]
         chk.fail("generated defer program did not evaluate normally: %s" % r["verdict"],
                  {"program": r["src"], "impl": r["impl"]}, klass="C15:" + r["verdict"])
+    # the correspondence must exercise the model (same guard as pancore.conclude)
+    disc = [r for r in list(res) + list(eres) if r["verdict"] in ("unsup", "fuel")]
+    chk.cov["model_discarded"] = {"unsup_or_fuel": len(disc), "of": len(res) + len(eres)}
+    if len(disc) * 2 > len(res) + len(eres) and not viol:
+        chk.fail("the model discards %d of %d generated programs (unmodelled built-in or out of fuel): the correspondence with PanCore is not exercised"
+                 % (len(disc), len(res) + len(eres)), {"correspondence": "Core.Interp.eval_body vs evaluator/eval_program.go",
+                                                        "first_discarded_program": disc[0]["src"][:400]}, no_input=True)
     if not ok and not viol:
         chk.fail(broken, {"theorem_file": "coq/Props/C15.v", "detail": broken}, no_input=True)
     return chk.finish()
